@@ -2,7 +2,11 @@
 
 package proto
 
-import "io"
+import (
+	"io"
+
+	"go.opentelemetry.io/otel/trace"
+)
 
 // vExhausted reports whether the reader has no byte left.
 func vExhausted(r *Reader) bool {
@@ -388,5 +392,44 @@ func VerifC17Query() {
 	}
 	verifAssert(seq, "query-roundtrip-settings-params")
 	verifAssert(vExhausted(r), "query-exhausted")
+	verifObserveBytes("buf", b.Buf)
+}
+
+// VerifC17Span: a client info carrying a valid OpenTelemetry span context (any trace id, span id
+// and flags byte) is written as the reference says and read back unchanged, at every revision.
+func VerifC17Span() {
+	v := verifInt("version")
+	var cfg trace.SpanContextConfig
+	ids := verifBytes("ids", 24)
+	copy(cfg.TraceID[:], ids[:16])
+	copy(cfg.SpanID[:], ids[16:])
+	verifAssume(vAnd(cfg.TraceID[verifIntRange("tnz", 0, 1)*15] != 0, cfg.SpanID[verifIntRange("snz", 0, 1)*7] != 0)) // valid: not all zero
+	cfg.TraceFlags = trace.TraceFlags(verifU8("flags"))
+	ci := ClientInfo{ProtocolVersion: 54460, Major: 1, Minor: 2, Patch: 3, Interface: InterfaceTCP, Query: ClientQueryInitial,
+		InitialUser: "u", InitialQueryID: "q", InitialAddress: "a", OSUser: "o", ClientHostname: "h", ClientName: "n",
+		Span: trace.NewSpanContext(cfg)}
+	verifAssert(ci.Span.IsValid(), "span-valid")
+	var b Buffer
+	ci.EncodeAware(&b, v)
+	refSpan = &struct {
+		ids   [24]byte
+		flags byte
+	}{flags: byte(cfg.TraceFlags)}
+	copy(refSpan.ids[:], ids)
+	var w refBuf
+	refClientInfo(&w, ci, v)
+	refSpan = nil
+	verifAssert(vBytesEq(b.Buf, w.b), "span-enc==ref")
+	var d ClientInfo
+	r := b.Reader()
+	err := d.DecodeAware(r, v)
+	verifAssert(err == nil, "span-dec-ok")
+	if v >= refRevOpenTelemetry {
+		verifAssert(d.Span.IsValid(), "span-decoded-valid")
+		verifAssert(vAnd(d.Span.TraceID() == cfg.TraceID, vAnd(d.Span.SpanID() == cfg.SpanID, d.Span.TraceFlags() == cfg.TraceFlags)), "span-roundtrip")
+	} else {
+		verifAssert(!d.Span.IsValid(), "span-absent-before-54442")
+	}
+	verifAssert(vExhausted(r), "span-exhausted")
 	verifObserveBytes("buf", b.Buf)
 }
